@@ -108,6 +108,7 @@ pub fn enc_any(v: &dyn std::any::Any) -> Option<u64> {
     if let Some(x) = v.downcast_ref::<Result<u64, u64>>() { return Some(x.encode()); }
     if let Some(x) = v.downcast_ref::<Result<String, String>>() { return Some(x.encode()); }
     if let Some(x) = v.downcast_ref::<Slow>() { return Some(x.encode()); }
+    if let Some(x) = v.downcast_ref::<Weighted>() { return Some(x.encode()); }
     None
 }
 
@@ -182,4 +183,20 @@ impl Encode for Slow {
 }
 pub fn body_slow(_f: usize, _x: u32) -> Slow {
     Slow(executed().v)
+}
+
+/// A user type that reports its own size: 24 + 16 * (value mod 7) bytes.
+#[derive(Debug, Clone)]
+pub struct Weighted(pub u64);
+impl cachelito_core::MemoryEstimator for Weighted {
+    fn estimate_memory(&self) -> usize {
+        24 + 16 * (self.0 % 7) as usize
+    }
+}
+impl Encode for Weighted {
+    fn encode(&self) -> u64 { 2 * self.0 }
+    fn estimate(&self) -> usize { cachelito_core::MemoryEstimator::estimate_memory(&self.clone()) }
+}
+pub fn body_weighted(_f: usize, _x: u32) -> Weighted {
+    Weighted(executed().v)
 }
